@@ -605,8 +605,8 @@ def _alarm(signum, frame):
 def check_spec(t, spec, tier, part):
     f, names = make_function(spec)
     for variant in variants_for(spec, names, tier, metadata_only=(part == 'metadata')):
-        old = signal.signal(signal.SIGALRM, _alarm)
-        signal.alarm(VARIANT_BUDGET_S)
+        old = signal.signal(signal.SIGVTALRM, _alarm)
+        signal.setitimer(signal.ITIMER_VIRTUAL, VARIANT_BUDGET_S)
         try:
             check_variant(t, spec, variant, f, names, part)
         except Hang:
@@ -614,8 +614,8 @@ def check_spec(t, spec, tier, part):
                   {'part': part, 'spec': spec, 'variant': variant}, 'termination',
                   'still running after %d s' % VARIANT_BUDGET_S)
         finally:
-            signal.alarm(0)
-            signal.signal(signal.SIGALRM, old)
+            signal.setitimer(signal.ITIMER_VIRTUAL, 0)
+            signal.signal(signal.SIGVTALRM, old)
 
 
 def make_shard_fn(tier, part):
